@@ -21,6 +21,7 @@ from pathlib import Path
 
 import lib
 from translate import sites as tr_sites
+from translate import state as tr_state
 
 PROP = "C10"
 CORPUS = Path(__file__).resolve().parent / "corpus" / "C10.json"
@@ -31,7 +32,7 @@ MODEL_HEADER = (
 
 
 def gen_files():
-    return {"Sites.v": tr_sites.translate(str(lib.REPO))}
+    return {"Sites.v": tr_sites.translate(str(lib.REPO)), "State.v": tr_state.translate(str(lib.REPO))}
 
 
 # ---------------------------------------------------------------------------
